@@ -193,9 +193,9 @@ func c15Run(k *core.Case) {
 		f.StartRet = core.Tick()
 		mu.Unlock()
 	}
+	fr := r.Fork()
 	go func() {
 		defer close(appDone)
-		fr := r.Fork()
 		gens := 0
 		for gens < maxGens {
 			nr := nextRec{Call: core.Tick()}
@@ -228,11 +228,12 @@ func c15Run(k *core.Case) {
 					kind := kind
 					g := gen
 					delay := time.Duration(fr.Intn(4000)) * time.Microsecond
+					lr := fr.Fork()
 					running.Add(1)
 					go func() {
 						defer running.Done()
 						time.Sleep(delay)
-						startFn(g, kind, fr.Fork())
+						startFn(g, kind, lr)
 					}()
 					continue
 				}
@@ -253,8 +254,8 @@ func c15Run(k *core.Case) {
 		}
 	}()
 	// scenario events
+	er := r.Fork()
 	go func() {
-		er := r.Fork()
 		for _, e := range events {
 			time.Sleep(time.Duration(er.Range(1, 12)) * time.Millisecond)
 			switch e {
